@@ -336,16 +336,20 @@ class R:
 
     # comparisons --------------------------------------------------------
     def __lt__(self, o):
-        return B(self.z < lift(o).z, rel=('>', o, self))
+        a, b = _cmp_sides(self, lift(o))
+        return B(a < b, rel=('>', o, self))
 
     def __le__(self, o):
-        return B(self.z <= lift(o).z, rel=('>=', o, self))
+        a, b = _cmp_sides(self, lift(o))
+        return B(a <= b, rel=('>=', o, self))
 
     def __gt__(self, o):
-        return B(self.z > lift(o).z, rel=('>', self, o))
+        a, b = _cmp_sides(self, lift(o))
+        return B(a > b, rel=('>', self, o))
 
     def __ge__(self, o):
-        return B(self.z >= lift(o).z, rel=('>=', self, o))
+        a, b = _cmp_sides(self, lift(o))
+        return B(a >= b, rel=('>=', self, o))
 
     def __eq__(self, o):
         if o is None:
@@ -359,6 +363,33 @@ class R:
         return B(self.z != lift(o).z, rel=('!=', self, o))
 
     __hash__ = None
+
+
+def _obviously_positive(d):
+    """a denominator that is positive by construction: a positive numeral, pi, or a product of such"""
+    if d is None:
+        return True
+    if z3.is_rational_value(d):
+        return d.numerator_as_long() > 0
+    if z3.is_const(d) and d.decl().name() == PI_NAME:
+        return True
+    if z3.is_app_of(d, z3.Z3_OP_MUL):
+        return all(_obviously_positive(c) for c in d.children())
+    return False
+
+
+def _cmp_sides(a, b):
+    """terms to compare: denominators that are positive by construction are multiplied out (keeps e.g.
+    theta*180/pi <= 180 linear)"""
+    if (a.d is None and b.d is None) or not (_obviously_positive(a.d) and _obviously_positive(b.d)):
+        return a.z, b.z
+    if a.d is None:
+        return a.n * b.d, b.n
+    if b.d is None:
+        return a.n, b.n * a.d
+    if z3.eq(a.d, b.d):
+        return a.n, b.n
+    return a.n * b.d, b.n * a.d
 
 
 def lift(x):
@@ -1115,11 +1146,40 @@ def _quick_differs(c, p):
         return False
 
 
+def _sqrt_of_rational(q):
+    """sqrt of a non-negative rational as (rational) * surd(squarefree part)"""
+    q = Fraction(q)
+    if q < 0:
+        raise OutsideSubset('sqrt of a negative constant')
+    n = q.numerator * q.denominator          # sqrt(p/q) = sqrt(p q) / q
+    k, m = 1, 1
+    f = 2
+    while f * f <= n:
+        e = 0
+        while n % f == 0:
+            n //= f
+            e += 1
+        m *= f ** (e // 2)
+        if e % 2:
+            k *= f
+        f += 1
+    k *= n
+    coef = Fraction(m, q.denominator)
+    if k == 1:
+        return coef if coef.denominator != 1 else int(coef)
+    return surd('sqrt%d' % k, k) * coef
+
+
 def sqrt(x, nonneg_known=False):
     if isinstance(x, I):
         x = lift(x)
     if not isinstance(x, R):
+        if _CTX[0] is not None and isinstance(x, (int, Fraction)) and not isinstance(x, bool):
+            return _sqrt_of_rational(x)          # exact: rational times the surd of the square-free part
         return math.sqrt(x)
+    cst = ang_const(x.ang)
+    if cst is not None and (cst[1] == 0 or cst[0] == 0) and x.d is None and z3.is_rational_value(x.n):
+        return _sqrt_of_rational(cst[0])
     c = ctx()
     key = ('sqrt', x.z.sexpr())
     if key in c.memo:
